@@ -10,7 +10,7 @@ package control
 
 import (
 	"net/netip"
-	"reflect"
+	"os"
 	"sort"
 	"strings"
 	"testing"
@@ -86,14 +86,31 @@ func c04Check(t *rapid.T, unit string, o vrOpts, npk int) {
 	}
 	p := vrGenProgram(t, o)
 	text := vrRender(p)
-	m, c, err := vrBuildMatcher(text, vrCompileOpts{GeoDir: geoDir})
+	// ONE parsed configuration object, compiled twice with the production chain (a
+	// reload, or a second pipeline, re-compiling the same parsed config). After each
+	// compilation the object must be exactly as parsed (own snapshot, no production
+	// clone helper involved) and every probe must be decided as written.
+	conf, err := vrParseConf(text)
 	if err != nil {
 		t.Fatalf("well-formed routing program rejected: %v\n%s", err, text)
 	}
-	// the optimisers work on a clone: the list they were given is unchanged
-	if !reflect.DeepEqual(c.RulesRaw, c.RulesIn) {
-		t.Fatalf("the optimiser chain mutated its input rule list\n%s", text)
+	parsed := vrSnapshotRouting(conf)
+	const nCompile = 2
+	var ms [nCompile]*RoutingMatcher
+	var cs [nCompile]*vrCompiled
+	for n := 0; n < nCompile; n++ {
+		cs[n], err = vrCompileConf(conf, vrCompileOpts{GeoDir: geoDir})
+		if err == nil {
+			ms[n], err = cs[n].Builder.BuildUserspace()
+		}
+		if err != nil {
+			t.Fatalf("compilation #%d of the same parsed configuration failed: %v\n%s", n+1, err, text)
+		}
+		if now := vrSnapshotRouting(conf); now != parsed && os.Getenv("VERIF_C04_DECISIONS_ONLY") == "" { // knob for sensitivity runs only
+			t.Fatalf("compilation #%d changed the parsed configuration object (the optimiser chain must work on its own copy)\n--- config ---\n%s--- as parsed ---\n%s--- now ---\n%s", n+1, text, parsed, now)
+		}
 	}
+	c := cs[0]
 	for i := 0; i < p.ExcludedF1; i++ {
 		vkExcluded(unit, "F1")
 	}
@@ -131,14 +148,16 @@ func c04Check(t *rapid.T, unit string, o vrOpts, npk int) {
 			k.Dst = netip.AddrPortFrom(vrGenAddrNear(t, "geo_dst", pf), k.Dst.Port())
 		}
 		want := vrInterpret(p, k)
-		ob, mark, must, err := vrRoute(m, k)
-		if ok, got := vrAgree(c, want, ob, mark, must, err); !ok {
-			var opt strings.Builder
-			for _, r := range c.Program.Rules {
-				opt.WriteString("    " + r.String(false, false, true) + "\n")
+		for n := 0; n < nCompile; n++ {
+			ob, mark, must, err := vrRoute(ms[n], k)
+			if ok, got := vrAgree(cs[n], want, ob, mark, must, err); !ok {
+				var opt strings.Builder
+				for _, r := range cs[n].Program.Rules {
+					opt.WriteString("    " + r.String(false, false, true) + "\n")
+				}
+				t.Fatalf("compilation #%d of the parsed configuration: the compiled (normalised) program decides %s, the written rule list says %s\npacket %v\n--- config ---\n%s--- normalised rules ---\n%s--- triage (fresh parse) ---\n%s",
+					n+1, got, want, k, text, opt.String(), vrTriage(p, k, geoDir))
 			}
-			t.Fatalf("the compiled (normalised) program decides %s, the written rule list says %s\npacket %v\n--- config ---\n%s--- normalised rules ---\n%s--- triage ---\n%s",
-				got, want, k, text, opt.String(), vrTriage(p, k, geoDir))
 		}
 		nt := ""
 		cls := []string{}
